@@ -9,7 +9,7 @@ Definition op_fine (o : op) : bool := match o with OSet to => st_eqb to Error | 
 
 Lemma last_cons {A} (x : A) l a : last (x :: l) a = last l x.
 Proof.
-  revert x; induction l as [|y t IH]; intros x; [reflexivity|].
+  revert x a; induction l as [|y t IH]; intros x a; [reflexivity|].
   change (last (y :: t) a = last (y :: t) x). now rewrite !IH.
 Qed.
 
@@ -47,8 +47,10 @@ Proof.
   cbn [step] in H. destruct (is_nil (pend s)); [|discriminate].
   destruct (op_result cfg (cur s) o) as [to|] eqn:E.
   - destruct ok; [|discriminate]. inversion H; subst; clear H. unfold walk_inv; cbn [hist cur].
-    rewrite walk_app, Hw, <- Hc, last_last. split; [|reflexivity].
-    cbn. eapply op_result_fine; [eapply Hf; reflexivity|exact E].
+    split.
+    + rewrite walk_app, Hw, <- Hc. cbn [andb].
+      eapply op_result_fine; [eapply Hf; reflexivity|exact E].
+    + symmetry. apply last_last.
   - destruct ok; [discriminate|]. inversion H; subst. now split.
 Qed.
 
@@ -60,10 +62,11 @@ Proof.
   revert s. induction ls as [|l ls IH] using rev_ind; intros s Hf Hr.
   - inversion Hr; subst. apply walk_init.
   - rewrite run_app in Hr. destruct (run (step cfg) init ls) as [s1|] eqn:E; [|discriminate].
-    cbn [run] in Hr. destruct (step cfg s1 l) as [s2|] eqn:E2; [|discriminate]. inversion Hr; subst.
-    eapply walk_step; [apply IH; [|reflexivity]|intros o ok ->|exact E2].
+    cbn [run] in Hr. revert Hr. destruct (step cfg s1 l) as [s2|] eqn:E2; intros Hr; [|discriminate].
+    inversion Hr; subst.
+    apply (walk_step cfg s1 l s); [apply IH; [|reflexivity]| |exact E2].
     + intros o ok Hin. apply (Hf o ok). apply in_or_app. now left.
-    + apply (Hf o ok). apply in_or_app. right. now left.
+    + intros o ok ->. apply (Hf o ok). apply in_or_app. right. now left.
 Qed.
 
 (* IsRunning() is a single load compared with Running *)
